@@ -1,16 +1,17 @@
 #!/bin/bash
-# check_benign.sh <PROPERTY>   — behaviour-preserving refactorings produced by an independent sub-agent
+# check_benign.sh <PROPERTY> [TAG]   — behaviour-preserving refactorings produced by an independent sub-agent
 # (/tmp/wt-out/<P>b/patch<i>.diff, tools/benign_prompt.py): apply each to a scratch worktree of /repo HEAD and run ALL
 # claimed checks against it.  Any exit code other than 0 is a false alarm (or an analysis error) of the machinery.
 # Keeps the patches as /verif/benign/<P>-<i>/{patch.diff,notes.md,result.json}; the scratch worktree is removed.
 set -u
 P=$1
-SRC=/tmp/wt-out/${P}b
+TAG=${2:-b}   # b = first set, c = second set (kept as <P>-c<i>)
+SRC=/tmp/wt-out/${P}${TAG}
 mkdir -p /tmp/confirm
 for f in "$SRC"/patch*.diff; do
   [ -f "$f" ] || continue
   i=$(basename "$f" .diff | sed 's/patch//')
-  ID=$P-$i
+  if [ "$TAG" = "b" ]; then ID=$P-$i; else ID=$P-$TAG$i; fi
   WT=/tmp/confirm/b$ID
   OUT=/verif/benign/$ID
   mkdir -p "$OUT"
